@@ -21,6 +21,9 @@ from typing import Any, Callable, Dict, List, Optional, Sequence, Tuple
 from .model import norm
 
 
+_BUILTIN_TYPES = {t.__name__: t for t in (bool, int, float, complex, str, bytes, tuple, list, dict, set, frozenset, object, type)}
+
+
 class Unsupported(Exception):
     def __init__(self, node: ast.AST, why: str = "") -> None:
         super().__init__(f"line {getattr(node, 'lineno', '?')}: unsupported form `{norm(node)[:80]}` {why}")
@@ -181,6 +184,8 @@ class Interp:
             it = self.ev(st.iter)
             if isinstance(it, dict):
                 it = list(it)
+            if isinstance(it, type) and issubclass(it, __import__("enum").Enum):
+                it = list(it)
             if not isinstance(it, (list, tuple, set, frozenset)):
                 raise Unsupported(st, "(iteration over a non-collection)")
             broke = False
@@ -314,6 +319,8 @@ class Interp:
                 return Sym(e.id)
             if e.id in ("True", "False", "None"):
                 return {"True": True, "False": False, "None": None}[e.id]
+            if e.id in _BUILTIN_TYPES:
+                return _BUILTIN_TYPES[e.id]
             return Opaque(e.id)
         if isinstance(e, ast.Attribute):
             base = self.ev(e.value)
@@ -525,6 +532,8 @@ class Interp:
                 return
             if isinstance(it, dict):
                 it = list(it)
+            if isinstance(it, type) and issubclass(it, __import__("enum").Enum):
+                it = list(it)
             for x in list(it):
                 self.assign(g.target, x)
                 if all(self.truth(self.ev(c)) for c in g.ifs):
@@ -584,7 +593,17 @@ class Interp:
                 if isinstance(target, Obj):
                     ctor = target.get("__call__", e)
                     return ctor(*args, **kwargs)
-                return target(*args, **kwargs)
+                try:
+                    return target(*args, **kwargs)
+                except (Unsupported, PyRaise, ModelError, AssertionFailed, _Return, _Break, _Continue):
+                    raise
+                except Exception as ex:  # a native callable of the model raised: a Python exception of the interpreted code
+                    raise PyRaise(type(ex).__name__, None)
+            if nm == "type" and len(e.args) == 1 and nm not in self.env:
+                v = self.ev(e.args[0])
+                if isinstance(v, (Obj, Opaque, Sym)):
+                    raise Unsupported(e, "(type() of a model object)")
+                return type(v)
             if nm == "hasattr" and len(e.args) == 2 and nm not in self.env:
                 o = self.ev(e.args[0])
                 a = self.ev(e.args[1])
@@ -600,9 +619,18 @@ class Interp:
             if nm == "isinstance" and len(e.args) == 2:
                 v0 = self.ev(e.args[0])
                 classes0 = e.args[1].elts if isinstance(e.args[1], ast.Tuple) else [e.args[1]]
-                native = {"bool": bool, "int": int, "str": str, "list": list, "tuple": tuple, "dict": dict, "float": float, "set": set}
-                if isinstance(v0, (bool, int, str, list, tuple, dict, float, set, type(None))) and all(norm(c) in native for c in classes0):
+                native = {"bool": bool, "int": int, "str": str, "list": list, "tuple": tuple, "dict": dict, "float": float, "set": set, "type": type}
+                if not isinstance(v0, (Obj, Opaque, Sym)) and all(norm(c) in native for c in classes0):
                     return any(isinstance(v0, native[norm(c)]) for c in classes0)
+            if nm == "isinstance" and len(e.args) == 2 and not isinstance(e.args[1], ast.Name):
+                v0 = self.ev(e.args[0])
+                if not isinstance(v0, (Obj, Opaque, Sym)):
+                    try:
+                        c0 = self.ev(e.args[1])
+                    except Unsupported:
+                        c0 = None
+                    if isinstance(c0, type) or (isinstance(c0, tuple) and all(isinstance(x, type) for x in c0)):
+                        return isinstance(v0, c0)
             if nm == "isinstance":
                 if self.isinstance_hook is not None and len(e.args) == 2:
                     v = self.ev(e.args[0])
